@@ -553,3 +553,5 @@ def run(chk, tier):
     chk.guard('C05.a', lambda: c05.rule_promote(chk, prog, tier))      # default argument promotions are the integer promotions (incl. bit-fields)
     from props import c06
     chk.guard('C06.a', lambda: c06.rule_layout(chk, prog, tier))       # the member offsets / storage units the emitted type description is built from (addmember)
+    from props import c01
+    chk.guard('C01.c', lambda: c01.rule_qbetype(chk, prog, tier))       # aggregates received or returned by value are copied by funccopy: every byte, also of over-aligned (16, 32) aggregates
